@@ -110,10 +110,10 @@ theorem history_rows (ops : List SOp) (s : Sess) (hraw : ∀ op ∈ ops, isRawSq
     · have := ih _ (fun o ho => hraw o (List.mem_cons_of_mem _ ho)) (stepRO_txn s op (hraw op (List.mem_cons_self ..)) h) n hn
       rwa [stepRO_durable] at this
 
-/-- The pending changes are exactly the `change` operations since the last rollback/close — in
+/-- The pending changes are exactly the `change` operations since the last rollback/close/refused transaction commit — in
 particular after a history with neither, all changes are still pending (none was applied). -/
 theorem pending_accumulates (ops : List SOp) (s : Sess)
-    (hno : ∀ op ∈ ops, op ≠ .rollback ∧ op ≠ .close) :
+    (hno : ∀ op ∈ ops, op ≠ .rollback ∧ op ≠ .close ∧ op ≠ .beginBlock) :
     (runOps stepRO s ops).1.pending =
       s.pending ++ ops.filterMap (fun op => match op with | .change c => some c | _ => none) := by
   induction ops generalizing s with
@@ -124,6 +124,22 @@ theorem pending_accumulates (ops : List SOp) (s : Sess)
     rw [ih _ (fun o ho => hno o (List.mem_cons_of_mem _ ho))]
     have := hno op (List.mem_cons_self ..)
     cases op <;> simp [stepRO] at this ⊢
+
+/-- A commit through the transaction object (`get_transaction().commit()`) is refused like `commit()`:
+nothing is stored and the session is left as it was. -/
+theorem txn_commit_raises (s : Sess) : stepRO s .txnCommit = (s, .raised) := rfl
+
+/-- Leaving a `with session.begin():` block is refused too and leaves nothing behind: stored rows
+unchanged, the block's transaction and the pending changes discarded. -/
+theorem begin_block_raises (s : Sess) :
+    (stepRO s .beginBlock).2 = .raised ∧ (stepRO s .beginBlock).1.durable = s.durable ∧
+    (stepRO s .beginBlock).1.txn = [] ∧ (stepRO s .beginBlock).1.pending = [] := by
+  simp [stepRO]
+
+/-- … in contrast to the ordinary session, where it stores the pending and flushed changes. -/
+theorem rw_txn_commit_stores :
+    (stepRW { durable := [1, 2], txn := [.add 8], pending := [.add 7] } .txnCommit).1.durable = [1, 2, 8, 7] := by
+  decide
 
 /-! ### 6. Contrast: the ordinary session does change the stored data -/
 
